@@ -536,6 +536,63 @@ func c12FormsCheck(c *Ctx) int {
 			c.Violation("ConvertCondition:"+name, fmt.Sprintf("ConvertCondition(%s) = (zero=%v, %v), want (zero, false)", name, cd.IsZero(), cok), nil, 0)
 		}
 	}
+	// values that merely WRAP a Stack or Condition (a reflect.Value describing one, a struct / slice / map /
+	// interface box / function holding one) are values like any other: no converter sees through them, and
+	// nothing treats them as nested
+	wrapped := func() map[string]any {
+		st := stackage.And().Push("w1", "w2")
+		al := StackAlias(stackage.Or().Push("w"))
+		cd := stackage.Cond("wk", stackage.Eq, stackage.List().Push("we"))
+		ca := CondAlias(stackage.Cond("wk", stackage.Ne, "wv"))
+		var box any = st
+		var cbox any = &ca
+		return map[string]any{
+			"reflect.Value of a Stack": reflect.ValueOf(st), "reflect.Value of an alias": reflect.ValueOf(al), "reflect.Value of a pointer to an alias": reflect.ValueOf(&al),
+			"reflect.Value of a Condition": reflect.ValueOf(cd), "reflect.Value of a pointer to a Condition alias": reflect.ValueOf(&ca), "pointer to a reflect.Value of a Stack": func() any { v := reflect.ValueOf(st); return &v }(),
+			"struct holding a Stack": struct{ S stackage.Stack }{st}, "struct holding a Condition": struct{ C stackage.Condition }{cd}, "[]Stack": []stackage.Stack{st}, "[1]StackAlias": [1]StackAlias{al},
+			"map holding a Stack": map[string]stackage.Stack{"s": st}, "*any holding a Stack": &box, "*any holding a pointer to a Condition alias": &cbox, "func returning a Stack": func() stackage.Stack { return st },
+		}
+	}
+	for name, v := range wrapped() {
+		n++
+		var s stackage.Stack
+		var cd stackage.Condition
+		var sok, cok bool
+		if p := noPanic(func() { s, sok = stackage.ConvertStack(v); cd, cok = stackage.ConvertCondition(v) }); p != "" {
+			c.Violation("panic:Convert:wrapped", "ConvertStack/ConvertCondition("+name+") panicked: "+p, nil, 0)
+			continue
+		}
+		if sok || !s.IsZero() || cok || !cd.IsZero() {
+			c.Violation("Convert:wrapped", fmt.Sprintf("ConvertStack(%s) = (zero=%v, %v), ConvertCondition = (zero=%v, %v), want (zero, false) twice: the value is neither, it only holds one", name, s.IsZero(), sok, cd.IsZero(), cok), nil, 0)
+		}
+		var msg string
+		if p := noPanic(func() {
+			holder := stackage.List().Push("lead", v)
+			nn := stackage.Or().SetNoNesting(true).Push(v)
+			cx := stackage.Cond("k", stackage.Eq, v)
+			cn := stackage.Cond("k", stackage.Eq, "old").SetNoNesting(true).SetExpression(v)
+			tv, tok := holder.Traverse(1)
+			_, deeper := holder.Traverse(1, 0)
+			switch {
+			case holder.IsNesting() || cx.IsNesting():
+				msg = "counts as nesting"
+			case nn.Len() != 1:
+				msg = "is turned away by a no-nesting Stack"
+			case reflect.TypeOf(v).Kind() != reflect.Func && diffAny(cn.Expression(), v), reflect.TypeOf(v).Kind() == reflect.Func && (cn.Expression() == "old" || cn.Expression() == nil):
+				msg = "is refused by a no-nesting Condition"
+			case cx.Len() != 1:
+				msg = fmt.Sprintf("gives a Condition the length %d", cx.Len())
+			case !tok || (reflect.TypeOf(v).Kind() != reflect.Func && diffAny(tv, v)):
+				msg = fmt.Sprintf("comes back from Traverse(1) as %T (found %v)", tv, tok)
+			case deeper:
+				msg = "lets Traverse(1,0) descend into it"
+			}
+		}); p != "" {
+			c.Violation("panic:wrapped-as-element", name+" as element / expression: "+p, nil, 0)
+		} else if msg != "" {
+			c.Violation("wrapped-value-treated-as-nested", name+", stored as an element or an expression, "+msg+": it is a plain value that merely holds a Stack / Condition", nil, 0)
+		}
+	}
 	return n
 }
 
